@@ -177,8 +177,10 @@ def check_initlen(ctx, w):
         ctx.ob('E-ii', ST + ':DWARFStructs._create_initial_length', 'u32, then u64 iff 0xffffffff [%s]' % ('LSB' if le else 'MSB'), ok,
                msg='initial length field does not consume 4 bytes, or 12 for the 64-bit escape')
     g = w.model.func(ST, 'DWARFStructs.initial_length_field_size')
-    got = [expr.nfs(r.value, expr.FEnv(g.node)) for r in expr.returns_of(g.node)]
-    ctx.ob('E-ii', g.construct, 'size 4 / 12 by format', got == [expr.spec_nf('4 if dwarf_format == 32 else 12')], got=got)
+    # decision rows (a conditional expression or an if/else with two returns alike)
+    got = expr.rows(expr.return_rows(g.node, expr.FEnv(g.node)))
+    want = expr.rows(expr.return_rows(ast.parse('def f(self):\n    return 4 if self.dwarf_format == 32 else 12\n').body[0], expr.FEnv()))
+    ctx.ob('E-ii', g.construct, 'size 4 / 12 by format', got == want, got=got, expected=want)
 
 
 def check_forms(ctx, w, cfg):
